@@ -53,33 +53,66 @@ theorem C08_pipeline_lossless (ser : Serializer) (serName compName : Bytes) (tc 
   rw [C08_pipeline ser serName compName tc comp lookupComp lookupCodec l hs hc h1 h2]
   exact rtLog_ok ser l h
 
-/-! The full statement (every value the scanner produces, every type code) is FALSE of the code at
-    HEAD.  Machine-checked witnesses of the known findings: -/
+/-! What the repairs in /repo changed (formerly the open findings C08-varchar-base64, C08-rawbytes,
+    C08-protobuf-time, C08-bigint-beyond-2p53), machine-checked on both sides. -/
 
-/-- C08-varchar-base64: the VARCHAR value "test" is valid base64 and comes back as bytes b5 eb 2d -/
-theorem C08_FINDING_varchar_base64 :
-    roundtripVal .json jVarchar (.str [116, 101, 115, 116]) = .ok (.str [0xb5, 0xeb, 0x2d]) := by decide
+/-- a text of a character column always comes back as itself under the JSON serializer, whether or not it
+    happens to be valid base64 -/
+theorem C08_char_text_lossless (jdbc : Int) (hc : classOf jdbc = .char) (s : Bytes) :
+    roundtripVal .json jdbc (.str s) = .ok (.str s) := by
+  simp only [roundtripVal, marshalJson, unmarshalJson, hc]
+  cases hb : b64dec s with
+  | none => simp [unmarshalC, hb]
+  | some b => simp [unmarshalC, b64dec_b64enc]
 
-/-- C08-rawbytes: a []byte value (BLOB, VARBINARY, MEDIUMTEXT, … are scanned as RawBytes) comes back
-    as the base64 TEXT of its bytes, or as a string — never as the same []byte -/
-theorem C08_FINDING_rawbytes (ser : Serializer) (jdbc : Int) (b : Bytes) :
-    ∀ v', roundtripVal ser jdbc (.bytes b) = .ok v' → undoEq v' (.bytes b) = false := by
-  intro v' h
+/-- before: the VARCHAR value "test" is valid base64 and came back as the bytes b5 eb 2d -/
+theorem C08_before_fix_varchar_base64 :
+    roundtripValBeforeFix .json jVarchar (.str [116, 101, 115, 116]) = .ok (.str [0xb5, 0xeb, 0x2d]) ∧
+    roundtripVal .json jVarchar (.str [116, 101, 115, 116]) = .ok (.str [116, 101, 115, 116]) := by decide
+
+/-- a byte slice of a binary column (BLOB, BINARY, VARBINARY, BIT) comes back as the same bytes, under both
+    serializers -/
+theorem C08_binary_lossless (ser : Serializer) (jdbc : Int) (hc : classOf jdbc = .bin) (b : Bytes) :
+    roundtripVal ser jdbc (.bytes b) = .ok (.bytes b) := by
+  cases ser <;>
+    simp [roundtripVal, marshalJson, marshalVal, unmarshalJson, unmarshalPb, hc, unmarshalC, b64dec_b64enc]
+
+/-- before: it came back as the base64 TEXT of its bytes, never as the same []byte -/
+theorem C08_before_fix_rawbytes (ser : Serializer) (jdbc : Int) (b : Bytes) :
+    ∀ v', roundtripValBeforeFix ser jdbc (.bytes b) = .ok v' → (match v' with | .bytes _ => false | _ => true) = true := by
+  intro v' hv
   cases ser
-  · simp only [roundtripVal, marshalVal, unmarshalJson] at h
-    cases hc : classOf jdbc <;> rw [hc] at h <;> simp only [unmarshalC] at h
-    all_goals (try (cases h; done))
-    all_goals (try (cases h; rfl))
-    all_goals (try (split at h <;> first | (cases h; done) | (cases h; rfl)))
-  · simp only [roundtripVal, marshalVal, unmarshalPb] at h
-    cases h; rfl
+  · simp only [roundtripValBeforeFix, marshalVal, unmarshalJsonBeforeFix] at hv
+    cases hc : classOfBeforeFix jdbc <;> rw [hc] at hv <;> simp only [unmarshalCBeforeFix] at hv
+    all_goals (try (split at hv))
+    all_goals (first | (cases hv; rfl) | (simp at hv; done))
+  · simp only [roundtripValBeforeFix, marshalVal, unmarshalPbBeforeFix] at hv
+    cases hv; rfl
 
-/-- C08-protobuf-time: under the protobuf serializer a time value comes back as a string -/
-theorem C08_FINDING_protobuf_time (jdbc ns : Int) :
-    ∃ s, roundtripVal .protobuf jdbc (.time ns) = .ok (.str s) := ⟨_, rfl⟩
+/-- a point in time of a time column comes back as that point in time under the protobuf serializer too -/
+theorem C08_protobuf_time_lossless (jdbc : Int) (hc : classOf jdbc = .time) (ns : Int)
+    (h1 : -9223372036854775808 ≤ ns) (h2 : ns < 9223372036854775808) :
+    roundtripVal .protobuf jdbc (.time ns) = .ok (.time ns) := by
+  simp [roundtripVal, marshalVal, unmarshalPb, hc, unmarshalC, timeOfText_marshal ns h1 h2]
 
-/-- a type code UnmarshalJSON has no case for (e.g. JDBC FLOAT 6, NUMERIC 2, BOOLEAN 16) drops the value -/
-theorem C08_FINDING_unhandled_type_drops_value : roundtripVal .json 6 (.float 7 true) = .ok .nil := by decide
+/-- before: it came back as a string -/
+theorem C08_before_fix_protobuf_time (jdbc ns : Int) :
+    ∃ s, roundtripValBeforeFix .protobuf jdbc (.time ns) = .ok (.str s) := ⟨_, rfl⟩
+
+/-- every 64-bit integer of a BIGINT column comes back exactly, under both serializers (the documents are read
+    with json.Number) -/
+theorem C08_bigint_lossless (ser : Serializer) (i : Int) (h : inRange 64 i = true) :
+    roundtripVal ser jBigInt (.int i) = .ok (.int i) := by
+  have hc : classOf jBigInt = .intN 64 := by decide
+  cases ser <;>
+    simp [roundtripVal, marshalJson, marshalVal, unmarshalJson, unmarshalPb, hc, unmarshalC, h]
+
+/-- before: beyond 2^53 the value was refused by the model (the code rounded it through float64) -/
+theorem C08_before_fix_bigint : roundtripValBeforeFix .json jBigInt (.int 9007199254740993) = .error .error := by decide
+
+/-- a type code without a rule of its own (JDBC FLOAT 6, NUMERIC 2, BOOLEAN 16) keeps the value; before, it was dropped -/
+theorem C08_unhandled_type_keeps_value :
+    roundtripVal .json 6 (.float 7 true) = .ok (.float 7 true) ∧ roundtripValBeforeFix .json 6 (.float 7 true) = .ok .nil := by decide
 
 /-! Counter-examples against the shape at c3b0bd5. -/
 
